@@ -302,9 +302,11 @@ def confirm(run, helper, oid, d, build):
     confirmed = 0
     notes = []
     seen = set()
+    tried = {}
     for cex in d.get("cex", []):
-        if cex["case"] in seen:
+        if cex["case"] in seen or tried.get(cex["case"], 0) >= 8:
             continue
+        tried[cex["case"]] = tried.get(cex["case"], 0) + 1
         try:
             sc, main, exp, exp_log = build(cex)
             obs = run_scenario(helper, sc)
@@ -312,8 +314,8 @@ def confirm(run, helper, oid, d, build):
         except Unrealisable as e:
             notes.append(f"{cex['case']}: model not realisable natively ({e})")
             continue
-        seen.add(cex["case"])
         if differs:
+            seen.add(cex["case"])
             confirmed += 1
             run.finding(oid, cex["case"], f"{cex['why']}; natively: {what}",
                         {"engine": "e3", "scenario": sc, "main": main, "expected": exp, "expected_log": exp_log, "observed": obs})
